@@ -135,7 +135,7 @@ def check(case, rec: Rec) -> None:
             if what is None:
                 continue
             log.append(what)
-            if op in ("del_page", "rename_page", "move_note", "break_page", "restore_page"):
+            if op in ("del_page", "rename_page", "move_note", "break_page", "restore_page", "strip_page"):
                 flags.add(op)
             if advanced_pending:
                 flags.add("edit-after-day-advance")
